@@ -26,7 +26,7 @@ def run(ck):
     np.seterr(all="ignore")
     rng = ck.rng
     thorough = ck.tier == "thorough"
-    N = 40 if thorough else 8
+    N = ck.n(8, 40)
     worst = {}
     lines, plan = [], []
 
